@@ -8,14 +8,15 @@ WT=/tmp/wt/confirm
 export CARGO_TARGET_DIR=/tmp/tgt-scratch CARGO_NET_OFFLINE=true
 [ -d $WT ] || git -C /repo worktree add --detach $WT HEAD -q
 cd $WT && git checkout -q -- . && git clean -fdq
-DST=/verif/seeded/$ID/$X; mkdir -p $DST
+PROP=${ID%r2}; PFX=""; [ "$PROP" != "$ID" ] && PFX="r2"
+DST=/verif/seeded/$PROP/$PFX$X; mkdir -p $DST
 cp $SRC/$X.patch.diff $DST/patch.diff; cp $SRC/$X.demo.diff $DST/demo.diff; cp $SRC/$X.meta.json $DST/meta.json
 CMD=$(python3 - <<PY
 import json,re
 m=json.load(open("$SRC/$X.meta.json"))
 c=m.get("demo_cmd","")
 if isinstance(c,list): c=" ; ".join(c)
-r=re.findall(r"cargo test[^;&|\n]*", c)
+r=re.findall(r"cargo test[^;&|\n(]*", c)
 print(r[-1].strip() if r else "")
 PY
 )
